@@ -24,7 +24,7 @@ var interpStd = map[string]bool{
 	"unicode/utf8": true, "unicode": true, "path": true, "errors": true, "io": true, "bufio": true,
 	"encoding/binary": true, "math/bits": true, "internal/stringslite": true, "internal/itoa": true,
 	"text/tabwriter": true, "container/list": true, "unicode/utf16": true, "iter": true,
-	"internal/bytealg": true,
+	"internal/bytealg": true, "net/url": true, "github.com/ianlancetaylor/demangle": true,
 }
 
 func pkgClass(path string) int {
